@@ -3,10 +3,11 @@
 import glob, json, os, re
 HERE = os.path.dirname(os.path.dirname(os.path.abspath(__file__)))
 rows = []
+SUM = json.load(open(os.path.join(HERE, "tools", "seed_summaries.json")))
 for f in sorted(glob.glob(os.path.join(HERE, "seeded", "*", "meta.json"))):
     m = json.load(open(f))
     d = os.path.basename(os.path.dirname(f))
-    what = m.get("summary", "")
+    what = m.get("summary") or SUM.get(d, "")
     det = ", ".join(m.get("detected_by", [])) or "—"
     inc = ", ".join(m.get("inconclusive", [])) or "—"
     own = m["property"] in m.get("detected_by", [])
